@@ -132,6 +132,11 @@ class Ctx:
         else:
             v['count'] += 1
 
+    def flooded(self, limit=2000):
+        '''so many violations that going on only costs time and memory (a
+        broken tree can make every further case fail): the worker stops early'''
+        return sum(v['count'] for v in self.violations.values()) >= limit
+
     def merge(self, other):
         '''merge a worker's partial result dict (see export())'''
         for k, n in other['counters'].items():
